@@ -466,7 +466,7 @@ func genC07(r *rand.Rand, t *Trace, thorough bool) {
 	for kind := 0; kind < 4; kind++ {
 		for it := 0; it < nh; it++ {
 			p, ntrain := rndParams(r, kind, thorough)
-			o := vecHistOpts{nops: 10 + r.Intn(25), trainFirst: it%6 != 0, ntrain: ntrain, serialize: true, allowReuse: it%3 == 1}
+			o := vecHistOpts{nops: 10 + r.Intn(25), trainFirst: it%6 != 0, ntrain: ntrain, serialize: true, allowReuse: it%3 == 1, allowDup: it%4 == 2}
 			c := runVecHistory(r, p, o, t)
 			t.Emit(c, "hist."+kindNames[kind])
 		}
